@@ -890,7 +890,7 @@ func (c *FnCtx) checkInvariants(st *State, ls *LoopSpec, phase string, pos token
 
 func (c *FnCtx) assumeInvariants(st *State, ls *LoopSpec, pos token.Pos) {
 	for _, inv := range ls.Invariants {
-		c.guarded(st, func() { st.Assume(c.specEnvAt(st, pos).evalSpecBool(inv)) })
+		c.guarded(st, func() { st.AssumeFor(c.specEnvAt(st, pos).evalSpecBool(inv), inv) })
 	}
 }
 
@@ -1211,7 +1211,7 @@ func (c *FnCtx) runGhosts(st *State, site string, pos token.Pos) {
 		}
 		c.oblige(st, "ghost", lbl, goal, props, a.Expr)
 		c.curPos = save
-		st.Assume(goal)
+		st.AssumeFor(goal, a.Clause)
 	}
 }
 
